@@ -40,6 +40,7 @@ var (
 	quickN   = flag.Int("quick-procs", 0, "override the number of simulation processes of the quick tier")
 	oneSeed  = flag.Uint64("proc-seed", 0, "debug: run only the simulation process with this process seed")
 	oneRuns  = flag.Int("proc-runs", 16, "debug: number of runs for -proc-seed")
+	oneHist  = flag.Bool("proc-history", false, "debug: -proc-seed runs a long-history process")
 )
 
 func fatal(format string, args ...any) {
@@ -283,7 +284,11 @@ func (a *agg) add(p *procRun, pool []*c14sim.Key, eligible []int) {
 			}
 		} else {
 			for j := 0; j <= lastRun; j++ {
-				f.Specs = append(f.Specs, c14sim.GenRunSpec(p.cmd.Seed, j, pool, eligible))
+				if p.cmd.History {
+					f.Specs = append(f.Specs, c14sim.GenHistorySpec(p.cmd.Seed, j, pool, eligible))
+				} else {
+					f.Specs = append(f.Specs, c14sim.GenRunSpec(p.cmd.Seed, j, pool, eligible))
+				}
 			}
 		}
 		if n := len(f.Specs); n > 0 {
@@ -393,7 +398,7 @@ func main() {
 	}
 
 	if *oneSeed != 0 {
-		p := newProc(c14sim.ProcCmd{PoolPath: poolPath, Seed: *oneSeed, Runs: *oneRuns, LogPath: filepath.Join(*work, "one.log")}, 0, 60*time.Second)
+		p := newProc(c14sim.ProcCmd{PoolPath: poolPath, Seed: *oneSeed, Runs: *oneRuns, History: *oneHist, LogPath: filepath.Join(*work, "one.log")}, 0, 60*time.Second)
 		drv.RunJob(p.job)
 		fmt.Printf("exit=%d timedout=%v\nstderr: %s\n", p.job.ExitCode, p.job.TimedOut, tailS(string(p.job.Stderr)))
 		os.Exit(0)
@@ -416,6 +421,10 @@ func main() {
 		for i := 0; i < n; i++ {
 			procs = append(procs, newProc(c14sim.ProcCmd{PoolPath: poolPath, Seed: procSeed(base, i), Runs: runsPer}, 0, 5*time.Minute))
 		}
+		// long sequential histories (thousands of calls per process)
+		for i := 0; i < 64; i++ {
+			procs = append(procs, newProc(c14sim.ProcCmd{PoolPath: poolPath, Seed: prng.Derive(base, "c14-history-process", uint64(i)), Runs: 40, History: true}, 0, 5*time.Minute))
+		}
 		detSeeds = []uint64{procSeed(base, 0), procSeed(base, 1), procSeed(base, 2)}
 		runProcs(a, procs, parallel, pool, eligible, true)
 		if len(a.found) == 0 {
@@ -432,6 +441,9 @@ func main() {
 			var procs []*procRun
 			for i := 0; i < parallel*8; i++ {
 				procs = append(procs, newProc(c14sim.ProcCmd{PoolPath: poolPath, Seed: procSeed(base, wave*100000+i), Runs: 24}, 0, 5*time.Minute))
+			}
+			for i := 0; i < parallel/2; i++ {
+				procs = append(procs, newProc(c14sim.ProcCmd{PoolPath: poolPath, Seed: prng.Derive(base, "c14-history-process", uint64(wave*100000+i)), Runs: 200, History: true}, 0, 10*time.Minute))
 			}
 			runProcs(a, procs, parallel, pool, eligible, true)
 			wave++
